@@ -3,6 +3,7 @@ Functions that are not clearly related to another module
 """
 
 import asyncio
+import copy
 import inspect
 import re
 from re import Match
@@ -64,7 +65,7 @@ def tree_copy(lru_cached_parsing_func: Callable[[str], Tree]):
         cache_size_after_parsing = lru_cached_parsing_func.cache_info().currsize
         if cache_size_after_parsing == cache_size_before_parsing:
             parsing_logger.log(_CACHE_LOG_LEVEL, "The parsed tree for '%s' has been loaded from the cache", args[0])
-        return tree_result.copy()
+        return copy.deepcopy(tree_result)
 
     return decorated
 
